@@ -116,6 +116,12 @@ def check(repo, tier):
                     where, cons, f_, ln = l2rules.ev_where(repo, e, {MOD})
                     run.oblige('D2', (where, cons, 'dtype'), False)
                     run.add(Finding('C17', 'D2', where, cons, f'{scen}: {e["detail"]} -- the modes of a complex-conjugate eigenvalue pair become U Re(w)', f_, ln))
+            # D2 eigenvalues are complex: a test written as an ordering comparison on them (lambda > eps) looks at real parts, not at moduli
+            for e in sc.events('complex-order'):
+                if e.get('fn') is not None and e['fn'].mod == MOD:
+                    where, cons, f_, ln = l2rules.ev_where(repo, e, {MOD})
+                    run.oblige('D2', (where, cons, 'complex order'), False)
+                    run.add(Finding('C17', 'D2', where, cons, f'{scen}: {e["detail"]} -- eigenvalues with non-positive real part fail a "greater than a small number" test although they are not small', f_, ln))
             # D2 paired reorder
             if ok and isinstance(ev, Arr) and ev.ndim == 1:
                 lw = ev.legs[0]
